@@ -32,10 +32,10 @@ SPEC = {
             '(internal/reader homeChainPoller, 2 ms polling) over a scripted CCIPHome contract reader and ONE plugin (NewPlugin) on it, kept for the whole '
             'history; 5..8 steps, each changes the chain configs on the contract (a chain given to / taken from an oracle keeping its others, the '
             'destination taken / given, an oracle dropped from / added to every chain, F changed, readers rotated, a chain removed / added, two oracles '
-            'swapped, a reader of another DON, several at once, or a change whose poll fails) and waits until every poller has completed a fetch that started '
+            'swapped, a reader of another DON, several at once, a change whose poll fails, or empty-config: every chain config removed so that a SUCCESSFUL poll answers with an empty first page - the role map is then the empty one; the step after it either brings the old configuration back (the contract answered one empty page) or builds a new role map from nothing) and waits until every poller has completed a fetch that started '
             'after the change; then one round in a freshly drawn world: every oracle observes through a real ccipChainReader limited to the chains of its '
             'current role, every oracle validates every observation. A case carries the poll results the pollers went through; the role map is computed in '
-            'Coq (model: through the poller state machine; property: latest successful poll only). exec_hist: a chain removed in the step may still be named by '
+            'Coq (model: through the poller state machine; property: latest successful poll only). Rounds whose latest configuration is outside cfg_ok (destination not configured: the empty-config steps) are judged for model/implementation agreement only - nobody can be accepted there -, their API answers are judged in full. exec_hist: a chain removed in the step may still be named by '
             'the pending reports (class pending-unknown-chain, agreement only). commit_api / exec_api: after every step one instance is asked '
             'GetSupportedChainsForPeer (every oracle, two foreign peers, an unknown one), GetKnownCCIPChains, GetChainConfig (every chain ever configured, an '
             'unknown one), GetFChain, GetAllChainConfigs, ChainSupport.SupportedChains / SupportsDestChain (every oracle, one without peer id), '
